@@ -110,7 +110,7 @@ def main(chk):
             jobs.append((jl, cfgt, os.path.join(chk.work, "tlc-" + jl.replace("/", "-")), chk.seed + 1, 900 if chk.quick else 3000))
     runs, cases = [], []
     states = trans = 0
-    with ThreadPoolExecutor(max_workers=max(1, min(8, tlc.NPROC))) as ex:
+    with ThreadPoolExecutor(max_workers=max(1, min(12, tlc.NPROC))) as ex:
         for label, r, wall in ex.map(_tlc_job, jobs):
             if r.violated:
                 chk.violation({"spec": "RowLookup", "action": "TLC", "invariant": r.violated, "cfg": label},
